@@ -127,6 +127,7 @@ func ruleMergeWhoMayCancel(c *Ctx, r *R) {
 // ruleWhoMayCancel: the context that anchor creates for its goroutines is cancelled only by wrapper.Close - and, when
 // winnerMayCancel, by the goroutine that won the first-error CAS.
 func ruleWhoMayCancel(c *Ctx, r *R, anchor, wrapper, cancelField string, winnerMayCancel bool) {
+	pkgRel := anchor[:strings.LastIndex(anchor, ".")]
 	bi := bgAnalyse(c, anchor)
 	if bi == nil || bi.cancel == nil {
 		r.undecided(anchor+"|cancel", token.NoPos, "the cancel function of "+anchor+" not found")
@@ -147,7 +148,7 @@ func ruleWhoMayCancel(c *Ctx, r *R, anchor, wrapper, cancelField string, winnerM
 		}
 		// the captured cancel variable of Merge, or the cancel field of mergeStream
 		if ld, ok := call.Call.Value.(*ssa.UnOp); ok && ld.Op == token.MUL {
-			if fa, ok := ld.X.(*ssa.FieldAddr); ok && isNamedType(fa.X.Type(), "stream", wrapper) && fieldName(fa.X.Type(), fa.Field) == cancelField {
+			if fa, ok := ld.X.(*ssa.FieldAddr); ok && isNamedType(fa.X.Type(), pkgRel, wrapper) && fieldName(fa.X.Type(), fa.Field) == cancelField {
 				return true
 			}
 			// a field of a helper struct built in Merge that was given Merge's cancel function (closer.cancel)
@@ -175,9 +176,9 @@ func ruleWhoMayCancel(c *Ctx, r *R, anchor, wrapper, cancelField string, winnerM
 		}
 		return call.Call.Value == bi.cancel
 	}
-	for _, fn := range c.funcsOfPkg("stream") {
+	for _, fn := range c.funcsOfPkg(pkgRel) {
 		root := rootFn(fn)
-		if root != bi.fn && !worker[fn] && !(root.Signature.Recv() != nil && isNamedType(root.Signature.Recv().Type(), "stream", wrapper)) {
+		if root != bi.fn && !worker[fn] && !(root.Signature.Recv() != nil && isNamedType(root.Signature.Recv().Type(), pkgRel, wrapper)) {
 			continue
 		}
 		instrs(fn, func(b *ssa.BasicBlock, i int, in ssa.Instruction) {
@@ -206,7 +207,7 @@ func ruleWhoMayCancel(c *Ctx, r *R, anchor, wrapper, cancelField string, winnerM
 				}
 				r.ok(won, key, call.Pos(), "a worker may cancel the siblings only after winning the first-error race")
 			default:
-				r.violated(key, call.Pos(), "the merged stream's context is cancelled in "+name+": only Close and the first failing worker may do that - here a caller-side event (e.g. an expired per-call context) kills a stream that is still live")
+				r.violated(key, call.Pos(), "the stream's internal context is cancelled in "+name+": only Close (and, where there is a first-error race, its winner) may do that - here a caller-side event (e.g. an expired per-call context) kills a stream that is still live")
 			}
 		})
 	}
@@ -1165,4 +1166,10 @@ var _ = late(func() {
 	properties["C09"].Rules = append(properties["C09"].Rules, &Rule{ID: "C09.wg-count", Floor: 2,
 		Clause: "same rule as C11.wg-count / C12.wg-count: the goroutines that own (and eventually close) the sources of stream.Merge and stream.BatchFunc are added to the WaitGroup BEFORE they are started, and defer wg.Done() first: with the Add inside the goroutine a Close right after construction finds the counter at zero and returns while the sources are still open (and about to be used)",
 		Run:    func(c *Ctx, r *R) { ruleWgCount(c, r, "stream.Merge", "stream.BatchFunc") }})
+})
+
+var _ = late(func() {
+	properties["C14"].Rules = append(properties["C14"].Rules, &Rule{ID: "C14.who-may-cancel", Floor: 1,
+		Clause: "the context MapStream derives for its goroutines is cancelled only by mapStream.Close (the errgroup cancels its own child context when a goroutine RETURNS an error): a goroutine that calls cancel() itself before returning its error lets its siblings fail with context.Canceled first, and the errgroup - hence Next - reports the library's own cancellation instead of the source's or f's error",
+		Run:    func(c *Ctx, r *R) { ruleWhoMayCancel(c, r, "parallel.MapStream", "mapStream", "cancel", false) }})
 })
